@@ -1,11 +1,18 @@
 #!/bin/sh
 # tools/matrix.sh [names...] - runs every seeded change against the check of the property it breaks (quick tier) on a /tmp copy.
+# MATRIX_JOBS=n runs n of them at a time (each TLC run uses up to 8 workers and an explicit heap).
 cd "$(dirname "$0")/.." || exit 2
 names="$@"
 [ -z "$names" ] && names=$(ls seeded)
-for n in $names; do
+one() {
+  n=$1
   p=$(/venv/bin/python -c "import json;print(json.load(open('seeded/$n/meta.json')).get('property',''))")
-  [ -z "$p" ] && continue
+  [ -z "$p" ] && return
   r=$(tools/mutant.sh seeded/$n/patch.diff $p 2>&1 | grep "^== " | head -1)
   echo "MATRIX $n $p :: $r"
-done
+}
+if [ "${MATRIX_JOBS:-1}" -gt 1 ]; then
+  for n in $names; do echo $n; done | xargs -P "$MATRIX_JOBS" -I{} env MATRIX_JOBS=1 "$(pwd)/tools/matrix.sh" {}
+else
+  for n in $names; do one $n; done
+fi
